@@ -362,3 +362,4 @@ M("C20", "netbios-nibbles-swapped", "utils.py", "        barray.append(a)\n     
 M("C20", "netbios-decode-shift", "utils.py", "        a = (data[i] - offset) << 4", "        a = (data[i] - offset) << 3", "C20.R6")
 T("C20", "twin-decoder-or", "utils.py", "        barray.append(a + b)", "        barray.append(a | b)")
 T("C20", "twin-fullmatch", "utils.py", "re.match(\"^/[A-Za-z0-9]{4}$\", uri)", "re.fullmatch(\"/[A-Za-z0-9]{4}\", uri)")
+M("C16", "qsl-bytes-regression", "c2.py", "    query = parse_qsl(result.query.decode(\"ascii\"), encoding=\"latin-1\")\n    params = {key.encode(\"latin-1\"): value.encode(\"latin-1\") for key, value in query}", "    params = dict(parse_qsl(result.query))", "C16.R")
